@@ -523,3 +523,153 @@ def builder_signatures():
                 i = end
             i += 1
     return out
+
+
+# ------------------------------------------------------------------ disassembly name tables (C07)
+def disas_mask_tables():
+    """mask -> dict(empty=str, bits=[(BIT, name)]) from `impl Disassemble for spirv::<Mask>`"""
+    s = src("rspirv/binary/autogen_disas_operand.rs")
+    t = s.toks
+    out = {}
+    for i in s.find_all(["impl", "Disassemble", "for", "spirv", "::"]):
+        mask = t[i + 5].v
+        j = i + 6
+        if t[j].v != "{":
+            raise ShapeError("Disassemble impl for %s" % mask)
+        k = match_close(t, j)
+        f = find_fn(t, "disassemble", j, k)
+        body = t[f[1] + 1:f[2]]
+        bv = [x.v for x in body]
+        # if self.is_empty() { return "None".to_string(); } let mut bits = vec![]; (if self.contains(spirv::M::B) { bits.push("N") })* bits.join("|")
+        if bv[:7] != ["if", "self", ".", "is_empty", "(", ")", "{"] or bv[7] != "return" or body[8].k != "str":
+            raise ShapeError("Disassemble shape for %s" % mask)
+        empty = str_value(body[8])
+        p = bv.index("}") + 1
+        if bv[p:p + 8] != ["let", "mut", "bits", "=", "vec!", "[", "]", ";"]:
+            raise ShapeError("Disassemble shape (bits) for %s" % mask)
+        p += 8
+        bits = []
+        while p < len(body) and body[p].v == "if":
+            o = p
+            while body[o].v != "{":
+                o += 1
+            cond = [x.v for x in body[p + 1:o]]
+            if cond[:4] != ["self", ".", "contains", "("] or cond[4:7] != ["spirv", "::", mask] or cond[7] != "::" or cond[9] != ")":
+                raise ShapeError("Disassemble condition for %s at line %d" % (mask, body[p].line))
+            c = match_close(body, o)
+            inner = body[o + 1:c]
+            iv = [x.v for x in inner]
+            if iv[:4] != ["bits", ".", "push", "("] or inner[4].k != "str" or iv[5] != ")":
+                raise ShapeError("Disassemble push for %s at line %d" % (mask, body[o].line))
+            bits.append((cond[8], str_value(inner[4])))
+            p = c + 1
+            if p < len(body) and body[p].v == ";":
+                p += 1
+        tail = [x.v for x in body[p:]]
+        if tail[:4] != ["bits", ".", "join", "("]:
+            raise ShapeError("Disassemble tail for %s: %s" % (mask, tail[:6]))
+        out[mask] = dict(empty=empty, bits=bits, sep=str_value(body[p + 4]))
+    return out
+
+
+# ------------------------------------------------------------------ lift tables (C18)
+def lift_arms():
+    """fn name -> {opcode number: dict(enum=ops enum, variant=name, fields=[(field, [operand variants], mode)], line)}
+    mode: 'required' | 'optional' | 'variadic'"""
+    s = src("rspirv/lift/autogen_context.rs")
+    t = s.toks
+    out = {}
+    i = 0
+    while i < len(t) - 1:
+        if t[i].v == "fn" and t[i + 1].k == "id" and t[i + 1].v.startswith("lift_"):
+            fname = t[i + 1].v
+            j = i
+            while t[j].v != "{":
+                j += 1
+            k = match_close(t, j)
+            body = t[j + 1:k]
+            bv = [x.v for x in body]
+            arms = {}
+            if "match" in bv:
+                mi = bv.index("match")
+                bo = bv.index("{", mi)
+                bc = match_close(body, bo)
+                for pat, expr in match_arms(body[bo + 1:bc]):
+                    if len(pat) != 1 or pat[0].k != "num":
+                        continue
+                    arms[num_value(pat[0])] = _lift_arm(expr, fname)
+            out[fname] = arms
+            i = k
+        i += 1
+    return out
+
+
+def _lift_arm(expr, fname):
+    ev = [x.v for x in expr]
+    # Ok ( ops :: Enum :: Variant { fields } )  |  Ok ( ops :: Enum :: Variant )  | Ok ( Type :: Variant {..} ) ...
+    if ev[:2] != ["Ok", "("]:
+        return dict(enum=None, variant=None, fields=None, line=expr[0].line, raw=" ".join(ev[:12]))
+    c = match_close(expr, 1)
+    inner = expr[2:c]
+    iv = [x.v for x in inner]
+    if "{" not in iv:
+        path = [x for x in iv if x != "::"]
+        return dict(enum=path[-2] if len(path) >= 2 else None, variant=path[-1], fields=[], line=expr[0].line)
+    bo = iv.index("{")
+    path = [x for x in iv[:bo] if x != "::"]
+    bc = match_close(inner, bo)
+    fields = []
+    for f in split_commas(inner[bo + 1:bc]):
+        fv = [x.v for x in f]
+        if len(fv) < 3 or fv[1] != ":":
+            continue
+        name = fv[0]
+        variants = [fv[x + 4] for x in range(len(fv) - 4) if fv[x:x + 4] == ["dr", "::", "Operand", "::"]]
+        txt = " ".join(fv)
+        if "while let" in txt:
+            mode = "variadic"
+        elif txt.endswith(". ok_or ( OperandError :: Missing ) ?"):
+            mode = "required"
+        else:
+            mode = "optional"
+        # de-duplicate repeated mentions inside one match (pairs keep both)
+        seen = []
+        for v in variants:
+            seen.append(v)
+        fields.append((name, seen, mode, "lookup_token" in txt or "lookup (" in txt))
+    return dict(enum=path[-2] if len(path) >= 2 else None, variant=path[-1], fields=fields, line=expr[0].line)
+
+
+def sr_enum_fields():
+    """enum name -> {variant: [field names]} from rspirv/sr/autogen_ops.rs and autogen_types.rs"""
+    out = {}
+    for rel in ("rspirv/sr/autogen_ops.rs", "rspirv/sr/autogen_types.rs"):
+        s = src(rel)
+        t = s.toks
+        i = 0
+        while i < len(t) - 2:
+            if t[i].v == "enum" and t[i + 1].k == "id":
+                name = t[i + 1].v
+                j = i + 2
+                while t[j].v != "{":
+                    j += 1
+                k = match_close(t, j)
+                variants = {}
+                for item in split_commas(t[j + 1:k]):
+                    p, _ = skip_attrs(item, 0)
+                    item = item[p:]
+                    if not item:
+                        continue
+                    vn = item[0].v
+                    fields = []
+                    if len(item) > 1 and item[1].v == "{":
+                        c = match_close(item, 1)
+                        for f in split_commas(item[2:c]):
+                            fv = [x.v for x in f]
+                            if len(fv) >= 3 and fv[1] == ":":
+                                fields.append(fv[0])
+                    variants[vn] = fields
+                out[name] = variants
+                i = k
+            i += 1
+    return out
